@@ -13,7 +13,8 @@ From RV Require Import Base.Bytes Model.Ckpt.
 Open Scope N_scope.
 
 Record tdoc := mkTD { td_name : fname; td_end : N; td_lo : N; td_hi : N }.   (* TableDocument: URI, EndSeqNum, key groups of Start/EndKey *)
-Record doc := mkDoc { dc_id : N; dc_wal : fname; dc_after : N; dc_lastseq : N; dc_tables : list tdoc }.
+Record doc := mkDoc { dc_id : N; dc_wal : fname; dc_after : N; dc_lastseq : N; dc_tables : list tdoc;
+                     dc_xw : list fname (* the further WAL handles of a checkpoint restored from several instances *) }.
 Inductive fcontent := FSst (es : list entry) | FWal (es : list entry) | FCk (docs : list doc).
 Definition fsys := list (fname * fcontent).
 
@@ -32,7 +33,9 @@ Inductive nbmode := NbNone | NbNeeds | NbErr
               Operator.HandleNeedsTable: a deployed (live) one answers from its database, a registered but not deployed one (its
               process crashed, awaiting redeploy) cannot answer - the RPC fails - which must mean keep *)
 Inductive dstate := Live | Crashed | Dropped.
-Record ckrec := mkCk { c_id : N; c_tabs : list table; c_wal : fname; c_content : list entry; c_after : N; c_lastseq : N }.
+Record ckrec := mkCk { c_id : N; c_tabs : list table; c_wal : fname; c_content : list entry; c_after : N; c_lastseq : N;
+                       c_xw : list fname (* further WAL handles: a composite checkpoint restored from several instances *) }.
+Definition c_allw (c : ckrec) : list fname := c_wal c :: c_xw c.
 
 Record wdb := mkW {
   x_core : dbc; x_dir : N; x_own : own; x_nb : nbmode; x_next : N;
@@ -61,6 +64,8 @@ Inductive op :=
 | OStepCkptF (d id : N) (f : N)                (* step of the asynchronous part of Checkpoint with a storage fault (WAL save; list save as above) *)
 | OStepFlushF (d : N)                          (* flush task whose first table Save fails: the task ends with an error, nothing is swapped *)
 | ORestore (d id : N) (same : bool) (o : own) (nb : nbmode)
+| ORestoreM (d id : N) (dirs : list N) (o : own) (nb : nbmode)   (* restore, into a fresh directory, from the handles (id, dir) of several instances (or of one named instance) *)
+| OOpen (d : N)                                                    (* a further fresh database in a fresh directory *)
 | OCrash (d : N)
 | ODrop (d : N)
 | OGc
@@ -114,7 +119,7 @@ Definition kg_range (es : list entry) : N * N :=
 Definition obj_of_table (fromdoc : bool) (t : table) : tobj :=
   let r := kg_range (t_es t) in mkObj (t_name t) fromdoc (fst r) (snd r).
 Definition tdoc_of (t : table) : tdoc := let r := kg_range (t_es t) in mkTD (t_name t) (t_end t) (fst r) (snd r).
-Definition doc_of (c : ckrec) : doc := mkDoc (c_id c) (c_wal c) (c_after c) (c_lastseq c) (map tdoc_of (c_tabs c)).
+Definition doc_of (c : ckrec) : doc := mkDoc (c_id c) (c_wal c) (c_after c) (c_lastseq c) (map tdoc_of (c_tabs c)) (c_xw c).
 
 Definition num_of (n : fname) : N := snd n.
 
@@ -125,7 +130,9 @@ Definition num_of (n : fname) : N := snd n.
 Definition save_write (w : world) (x : wdb) : world :=
   add_dropped (set_fs w (fs_put (g_fs w) (x_dir x, 2, 0) (FCk (map doc_of (x_ckpts x))))) (map c_id (x_pending x)).
 Definition save_destroy (w : world) (x : wdb) : world * wdb :=
-  (set_fs w (fold_left (fun f c => fs_del f (c_wal c)) (x_pending x) (g_fs w)), with_ck x (x_ckpts x) [] (x_cktasks x)).
+  (* Checkpoint.Destroy deletes every WAL handle of the checkpoint; one that is already gone (removed by a sibling restored from
+     the same checkpoint) is skipped, the others are still deleted *)
+  (set_fs w (fold_left fs_del (flat_map c_allw (x_pending x)) (g_fs w)), with_ck x (x_ckpts x) [] (x_cktasks x)).
 Definition save_list_f (w : world) (x : wdb) (f : N) : world * wdb * bool :=
   if f =? 1 then (w, x, false)
   else if (f =? 2) && negb (match x_pending x with [] => true | _ => false end) then (save_write w x, x, false)
@@ -210,7 +217,7 @@ Definition open_from (w : world) (id : N) (dir : N) (o : own) (nb : nbmode) : ro
                       let '(core, rots) := db_restore (g_mem w) (g_walmax w) o ts (num_of (dc_wal d)) es in
                       let next := fold_right (fun t a => N.max (num_of (td_name t) + 1) a) 0 (dc_tables d) in
                       let objs := map (fun t => mkObj (td_name t) true (td_lo t) (td_hi t)) (dc_tables d) in
-                      let rec := mkCk (dc_id d) ts (dc_wal d) content (dc_after d) (dc_lastseq d) in
+                      let rec := mkCk (dc_id d) ts (dc_wal d) content (dc_after d) (dc_lastseq d) [] in
                       ROpen (after_rotations (mkW core dir o nb next [rec] [] FNone 0 CNone 0 [] objs Live) rots)
                   end
               | _ => RFail 1
@@ -218,6 +225,63 @@ Definition open_from (w : world) (id : N) (dir : N) (o : own) (nb : nbmode) : ro
           end
       | _ => RFail 1
       end
+  end.
+
+(* LoadCheckpointList + Start for several handles of one checkpoint id: the documents are merged (tables of all, one WAL handle
+   each), the WALs are replayed in the order of the handles, each from its own After *)
+Fixpoint load_docs (w : world) (id : N) (dirs : list N) : option (list doc) + N :=
+  match dirs with
+  | [] => inl (Some [])
+  | hd :: rest =>
+      if negb (existsb (fun h => (fst h =? id) && (snd h =? hd)) (g_handles w)) then inr 1 else
+      match fs_get (g_fs w) (hd, 2, 0) with
+      | Some (FCk docs) =>
+          match find_doc docs id with
+          | None => inr 2
+          | Some d => match load_docs w id rest with
+                      | inl (Some ds) => inl (Some (d :: ds))
+                      | other => other
+                      end
+          end
+      | _ => inr 1
+      end
+  end.
+Fixpoint replay_docs (f : fsys) (ds : list doc) : option (list entry) + N :=
+  match ds with
+  | [] => inl (Some [])
+  | d :: rest =>
+      match fs_get f (dc_wal d) with
+      | Some (FWal content) =>
+          match wal_read content (dc_after d) with
+          | RPanic => inr 3
+          | REof => inr 1
+          | ROk es => match replay_docs f rest with
+                      | inl (Some es') => inl (Some (es ++ es'))
+                      | other => other
+                      end
+          end
+      | _ => inr 1
+      end
+  end.
+Definition open_fromM (w : world) (id : N) (dirs : list N) (dir : N) (o : own) (nb : nbmode) : ropen :=
+  match load_docs w id dirs with
+  | inl (Some (d1 :: ds)) =>
+      match replay_docs (g_fs w) (d1 :: ds) with
+      | inl (Some es) =>
+          let tds := flat_map dc_tables (d1 :: ds) in
+          let ts := map (table_of_doc (g_fs w)) tds in
+          let walid := fold_right (fun d a => N.max (num_of (dc_wal d)) a) 0 (d1 :: ds) in
+          let '(core, rots) := db_restore (g_mem w) (g_walmax w) o ts walid es in
+          let next := fold_right (fun t a => N.max (num_of (td_name t) + 1) a) 0 tds in
+          let objs := map (fun t => mkObj (td_name t) true (td_lo t) (td_hi t)) tds in
+          let content := match fs_get (g_fs w) (dc_wal d1) with Some (FWal c) => c | _ => [] end in
+          let rec := mkCk id ts (dc_wal d1) content (dc_after d1) (dc_lastseq d1) (map dc_wal ds) in
+          ROpen (after_rotations (mkW core dir o nb next [rec] [] FNone 0 CNone 0 [] objs Live) rots)
+      | inl None => RFail 1
+      | inr c => RFail c
+      end
+  | inl _ => RFail 1
+  | inr c => RFail c
   end.
 
 Definition dead_db (w : world) : wdb := mkW (db_new (g_mem w) (g_walmax w)) 0 OwnAll NbNone 0 [] [] FNone 0 CNone 0 [] [] Crashed.
@@ -295,7 +359,7 @@ Definition step (w : world) (o : op) : world :=
       match get_db w d with
       | Some x =>
           let '(c, cap) := db_checkpoint (x_core x) in
-          let rec := mkCk id (cp_tables cap) (x_dir x, 1, cp_walid cap) (cp_wal cap) (cp_after cap) (cp_lastseq cap) in
+          let rec := mkCk id (cp_tables cap) (x_dir x, 1, cp_walid cap) (cp_wal cap) (cp_after cap) (cp_lastseq cap) [] in
           set_db w d (with_ck (with_core x c) (x_ckpts x ++ [rec]) (x_pending x) (x_cktasks x ++ [(id, false)]))
       | None => w
       end
@@ -363,6 +427,12 @@ Definition step (w : world) (o : op) : world :=
           let gone := if same then map fst (filter (fun h => (snd h =? dir) && negb (fst h =? id)) (g_handles w)) else [] in
           add_db (add_dropped w gone) x (negb same)
       end
+  | ORestoreM _ id dirs o nb =>
+      match open_fromM w id dirs (g_nextdir w) o nb with
+      | RFail _ => add_db w (dead_db w) true
+      | ROpen x => add_db w x true
+      end
+  | OOpen _ => add_db w (mkW (db_new (g_mem w) (g_walmax w)) (g_nextdir w) OwnAll NbNone 0 [] [] FNone 0 CNone 0 [] [] Live) true
   | OCrash d => match get_db w d with Some x => set_db w d (with_state x Crashed) | None => w end
   | ODrop d => match get_db w d with Some x => set_db w d (with_state x Dropped) | None => w end
   | OGc =>
